@@ -114,7 +114,22 @@ func BytesEq(name string, ma, mb func(Path) bool) Guard {
 				return false
 			}
 			a, b := PathOf(c.Call.Args[0]), PathOf(c.Call.Args[1])
-			return (ma(a) && mb(b)) || (ma(b) && mb(a))
+			if (ma(a) && mb(b)) || (ma(b) && mb(a)) {
+				return true
+			}
+			// "for _, row := range []struct{x, y []byte}{...} { compare(row.x, row.y) }":
+			// the test is an instance of the guard if one row of the table is the pair
+			ra, ca, oka := TableRows(a)
+			rb, cb, okb := TableRows(b)
+			if oka && okb && ca == cb && len(ra) == len(rb) {
+				for k := range ra {
+					pa, pb := PathOf(ra[k]), PathOf(rb[k])
+					if (ma(pa) && mb(pb)) || (ma(pb) && mb(pa)) {
+						return true
+					}
+				}
+			}
+			return false
 		}
 		switch c := cond.(type) {
 		case *ssa.Call:
